@@ -261,6 +261,8 @@ pub enum Act {
     StepsOn(usize, Rs, Steps),
     /// `buf.extend(other)` where `other` is a whole buffer of m elements moved in (its owning iterator)
     ExtendFromBuf(usize, usize),
+    /// `(buf, other_empty_buf).extend(pairs)`: std's tuple `Extend`, which drives `extend_one`/`extend_reserve`
+    ExtendPairs(usize),
     /// into_iter of the buffer advanced by `a` nexts; `clone_from` an owning iterator over m other
     /// elements advanced by `b` nexts; then drain it (terminal)
     IntoIterCloneFrom(usize, usize, usize),
@@ -339,6 +341,7 @@ impl Act {
             IterDebug(..) => "iter_debug",
             StepsOn(..) => "steps",
             ExtendFromBuf(..) => "extend_from_buffer",
+            ExtendPairs(_) => "extend_pairs",
             IntoIterCloneFrom(..) => "into_iter_clone_from",
         }
     }
@@ -346,7 +349,7 @@ impl Act {
         use Act::*;
         match *self {
             Remove(i) | SwapRemoveBack(i) | SwapRemoveFront(i) | TruncateBack(i)
-            | TruncateFront(i) | Extend(i) | ExtendFromSlice(i) | Get(i) | NthFront(i)
+            | TruncateFront(i) | Extend(i) | ExtendPairs(i) | ExtendFromSlice(i) | Get(i) | NthFront(i)
             | NthBack(i) | Index(i) | DebugFmt(i) | EqOther(i) | CmpOther(i) => vec![i],
             Swap(i, j) | CloneFrom(i, j) | ExtendHint(i, j) => vec![i, j],
             WriteVia(_, i) => vec![i],
@@ -483,6 +486,7 @@ impl Act {
                 },
             ),
             "extend_from_buffer" => ExtendFromBuf(a(0)?, a(1)?),
+            "extend_pairs" => ExtendPairs(a(0)?),
             "into_iter_clone_from" => IntoIterCloneFrom(a(0)?, a(1)?, a(2)?),
             "iter_debug" => IterDebug(
                 a(0)?,
@@ -521,6 +525,7 @@ impl Act {
                 | Extend(_)
                 | ExtendHint(..)
                 | ExtendFromBuf(..)
+                | ExtendPairs(_)
                 | ExtendFromSlice(_)
                 | Fill
                 | FillWith
